@@ -216,7 +216,7 @@ PROPS['C02'] = {
                   '(*io/newick.Parser).consumeComment', '(*io/newick.NodeStack).Clear',
                   ('(*io/newick.Parser).parseIter', {'match': [r'^nil', r'^bounds', r'^div0', r'^typeassert', r'^nopanic', r'^decreases', r'^inv', r'^pre\.(?!\(\*tree\.Tree\)\.ConnectNodes)', r'^noexit', r'^post']}),
                   ('(*io/newick.Parser).Parse', {'match': [r'^nil', r'^bounds', r'^div0', r'^typeassert', r'^nopanic', r'^decreases', r'^inv', r'^pre', r'^noexit', r'^post']}),
-                  ('(*io/nexus.Parser).Parse', {'match': [r'^nil', r'^bounds', r'^div0', r'^typeassert', r'^nopanic', r'^decreases', r'^inv', r'^pre', r'^noexit']})],
+                  ('(*io/nexus.Parser).Parse', {'match': [r'^nil', r'^bounds', r'^div0', r'^typeassert', r'^nopanic', r'^decreases', r'^inv', r'^pre', r'^noexit']}), 'io/phyloxml.cladeToTree', 'io/nextstrain.cladeToTree'],
     'trusted_base': TB_COMMON,
     'assumptions': A_COMMON,
     'not_decided': ['memory / stack exhaustion on huge nesting', 'faults inside encoding/xml, encoding/json, bufio, strconv, goalign'],
@@ -229,7 +229,7 @@ PROPS['C13'] = {
     'packages': ALLPK,
     'functions': ['io/utils.ReadMultiTrees$1', 'io/utils.ReadMultiTrees$1$1', 'io/utils.ReadMultiTrees$1$2', 'io/utils.ReadTreeReader',
                   '(*io/phyloxml.PhyloXML).FirstTree', '(*io/phyloxml.PhyloXML).IterateTrees',
-                  '(*io/nexus.Nexus).FirstTree', '(*io/nexus.Nexus).AddTree', 'io/fileutils.ReadUntilSemiColon', ('io/nexus.WriteNexus', {'match': [r'^callsite', r'^step', r'^nilchan']})],
+                  '(*io/nexus.Nexus).FirstTree', '(*io/nexus.Nexus).AddTree', 'io/fileutils.ReadUntilSemiColon', ('io/nexus.WriteNexus', {'match': [r'^callsite', r'^step', r'^nilchan']}), 'io/phyloxml.cladeToTree', 'io/phyloxml.writeClade'],
     'trusted_base': TB_COMMON,
     'assumptions': A_COMMON,
     'explanation': 'Relational / agreement contracts on the entry points, proved deductively; format conversion round trips are compositions outside the reach of per-function contracts and are not claimed.',
